@@ -249,6 +249,16 @@ class Machine:
                     res = mk_ite(c, v, res, srt)
             return UNDEF if res is None else res
         v = arg
+        if isinstance(v, (Ptr, FnPtr)) or any(isinstance(o.cells[k][0], (Ptr, FnPtr)) for k in cand):
+            # storing a pointer (or over pointers): concretise the offset by forking over the candidate cells
+            keys = sorted(set(cand) | set(zero_cand))
+            for k in keys[:-1]:
+                if s.decide(mk_cmp('eq', off, k)):
+                    return s.store(Ptr(p.obj, k), v, n)
+            if keys:
+                s.assume(mk_cmp('eq', off, keys[-1]))
+                return s.store(Ptr(p.obj, keys[-1]), v, n)
+            raise SafetyEvent('out-of-bounds', f'store at a symbolic offset into object {p.obj} with no candidate cell')
         for k in sorted(set(cand) | set(zero_cand)):
             c = mk_cmp('eq', off, k)
             old = o.cells[k][0] if k in o.cells else (Fraction(0) if isinstance(v, (Fraction, Term)) and not isinstance(v, int) else 0)
@@ -350,8 +360,18 @@ class Machine:
         raise EngineError(f'zero_of {t}')
 
     def memset(s, p, val, n):
+        if isinstance(n, Term) and s.enum_values is not None:
+            n = s.concretize_int(n)          # fork over the feasible sizes
         if isinstance(n, Term) or isinstance(val, Term):
             raise EngineError('memset with symbolic size/value')
+        if isinstance(p, Ptr) and isinstance(p.off, Term):
+            if s.access_hook is None:
+                raise EngineError('memset at a symbolic address')
+            if n:
+                s.access_hook(s, 'W', p, n, 0)
+            return
+        if s.access_hook is not None and n:
+            s.access_hook(s, 'W', p, n, 0)
         if n == 0:
             return
         o = s.obj(p, n)
